@@ -199,9 +199,18 @@ class MLIRTokenKind(Enum):
         """
         if self != MLIRTokenKind.INTEGER_LIT:
             raise ValueError("Token is not an integer literal!")
-        if span.text[:2] in ["0x", "0X"]:
-            return int(span.text, 16)
-        return int(span.text, 10)
+        try:
+            if span.text[:2] in ["0x", "0X"]:
+                value = int(span.text, 16)
+                # Same limit as for decimal literals: larger integers cannot be
+                # converted to a decimal string (printing, error messages).
+                if value.bit_length() > 14000:
+                    raise ValueError("hexadecimal literal has more than 3500 digits")
+                return value
+            return int(span.text, 10)
+        except ValueError as e:
+            # e.g. more decimal digits than Python converts, or non-ASCII digits
+            raise ParseError(span, f"Invalid integer literal: {e}")
 
     def get_float_value(self, span: Span):
         """
@@ -386,7 +395,7 @@ class MLIRLexer(Lexer[MLIRTokenKind]):
         if current_char == '"':
             return self._lex_string_literal(start_pos)
 
-        if current_char.isnumeric():
+        if current_char.isascii() and current_char.isdigit():
             return self._lex_number(start_pos)
 
         raise ParseError(
